@@ -43,6 +43,9 @@ def run(ctx: Ctx):
     from .common import generic_lints
 
     generic_lints(ctx)
+    from .common import id_truthiness
+
+    id_truthiness(ctx)
 
 
 # --------------------------------------------------------------------------- 1
@@ -459,6 +462,18 @@ def duplicates(ctx: Ctx):
     else:
         ok = True if (f["listed_pop_guarded"] and f["map_excludes_derived"] and f["leftovers"]) else None
         ctx.ob("duplicate-free", where, {k: v for k, v in f.items() if k in ("map", "listed_pop_guarded", "map_excludes_derived", "leftovers")}, "listed ids are consumed from the remaining map (first mention wins), leftovers follow; derived elements are placed separately", ok)
+    # derived (inserted MR) items are positioned by `_derived_element_orderings`; the base descriptors must not emit them
+    # as well - at ANY of their emission sites (listed ids AND leftovers)
+    from ..orderkit import base_descriptor_emissions
+
+    ems = base_descriptor_emissions(m.node)
+    leaks = [e for e in ems if not e["guarded"] and not (e["maps"] and all(v is True for v in e["maps"].values()))]
+    definite = [e for e in leaks if e["maps"] and all(v is False for v in e["maps"].values())]
+    if definite:
+        ctx.violated("duplicate-free.derived", where, [f"{e['emits']} via {e['maps']}" for e in definite], "every emitted (idx, id) comes from the non-derived elements",
+                     "a derived item named in the explicit order is emitted as a base element AND positioned as a derived element: it is listed twice")
+    else:
+        ctx.ob("duplicate-free.derived", where, [f"{e['emits']}: guarded={e['guarded']} maps={e['maps']}" for e in ems][:4], "every emitted (idx, id) comes from the non-derived elements", True if ems and not leaks else None)
     m = ctx.repo.lookup(ex, "_derived_element_orderings")
     body = SUMMARIZER.summarize(m.node)
     ok = any(isinstance(n, ast.comprehension) and [u(i) for i in n.ifs] == ["element.derived"] for n in ast.walk(body))
